@@ -181,7 +181,7 @@ def eval_grid(i, scn):
         try:
             rot = xe.single.EOFRotator(n_modes=k).fit(m)
         except RuntimeError:          # Varimax may not converge on degenerate 2x2 cases: not a NaN question
-            return dict(found=ck.found, D=ck.D, M=ck.M, count={cls: 1, "rotation_not_converged": 1})
+            return dict(found=ck.found, D=ck.D, M=ck.M, count={cls: 1, "rotation_not_converged": 1}, ctx=dict(mismatch=mismatch, center=bool(center)))
         rc, rs = rot.components(), rot.scores()
         if not ds2:
             gf = {int(f) + 1 for f in np.where(np.isnan(rc.isel(mode=0).values))[0]}
@@ -192,7 +192,7 @@ def eval_grid(i, scn):
             try:
                 rref = xe.single.EOFRotator(n_modes=k).fit(mk(k).fit(red, "time"))
             except RuntimeError:
-                return dict(found=ck.found, D=ck.D, M=ck.M, count={cls: 1, "rotation_not_converged": 1})
+                return dict(found=ck.found, D=ck.D, M=ck.M, count={cls: 1, "rotation_not_converged": 1}, ctx=dict(mismatch=mismatch, center=bool(center)))
             why = same(rs.dropna("time", how="all"), rref.scores(), rtol=1e-6, what="rotated scores")
             ck.m(why is None, "C06", "C06_EqualsDeletedBeforehand", f"rotated scores differ from the pre-deleted model: {why}")
     return dict(found=ck.found, D=ck.D, M=ck.M, count={cls: 1}, ctx=dict(mismatch=mismatch, center=bool(center)))
